@@ -57,8 +57,8 @@ def _best(model):
     return best
 
 
-def h_health(nv: int, s0: int, r0: int, k0: int, c0: int, d0: bool, s1: int, r1: int, k1: int, c1: int, d1: bool,
-             s2: int, r2: int, k2: int, c2: int, d2: bool) -> bool:
+def h_health(nv: int, s0: int, r0: int, k0: int, c0: int, d0: int, s1: int, r1: int, k1: int, c1: int, d1: int,
+             s2: int, r2: int, k2: int, c2: int, d2: int) -> bool:
     """
     pre: mm.descriptors_ok(nv, _descs([s0, r0, k0, c0, d0, s1, r1, k1, c1, d1, s2, r2, k2, c2, d2]), B)
     pre: B.get("s0") is None or nv == 0 or s0 == B["s0"]
@@ -128,15 +128,15 @@ class _Node(object):
         return defer.succeed("upload-results")
 
 
-def h_repair(nv: int, s0: int, r0: int, k0: int, c0: int, d0: bool, s1: int, r1: int, k1: int, c1: int, d1: bool,
-             s2: int, r2: int, k2: int, c2: int, d2: bool, force: bool, writable: bool) -> bool:
+def h_repair(nv: int, s0: int, r0: int, k0: int, c0: int, d0: int, s1: int, r1: int, k1: int, c1: int, d1: int,
+             s2: int, r2: int, k2: int, c2: int, d2: int, force: bool) -> bool:
     """
     pre: mm.descriptors_ok(nv, _descs([s0, r0, k0, c0, d0, s1, r1, k1, c1, d1, s2, r2, k2, c2, d2]), B)
     pre: B.get("s0") is None or nv == 0 or s0 == B["s0"]
     post: _ == True
     """
     nv, sm, model = _setup(nv, [s0, r0, k0, c0, d0, s1, r1, k1, c1, d1, s2, r2, k2, c2, d2])
-    force, writable = mm.pinb(force), mm.pinb(writable)
+    force, writable = mm.pinb(force), B.get("writable", True)
     node = _Node(writable)
     rp = rp_mod.Repairer.__new__(rp_mod.Repairer)
     rp.node = node
